@@ -25,6 +25,8 @@ func init() {
 		out := []*vexplore.Scenario{
 			{Name: fmt.Sprintf("sub-hist-D%d", d), Mode: "hist", Reset: kit.ResetGlobals, Body: func() { hist(d) },
 				NeedCounters: []string{"delivered", "filtered-at-arrival", "purged-by-unsubscribe", "empty-topic-matches", "ctx-independent"}},
+			{Name: fmt.Sprintf("sub-late-context-short-queue-hist-D%d", d+1), Mode: "hist", Reset: kit.ResetGlobals, Body: func() { histLate(d + 1) },
+				NeedCounters: []string{"context-opened-mid-history", "short-queue-overflowed", "delivered"}},
 			{Name: "sub-match-enum", Mode: "enum", Reset: kit.ResetGlobals, Body: matchEnum, NeedCounters: []string{"match", "nomatch"}},
 			{Name: "sub-overflow", Mode: "enum", Reset: kit.ResetGlobals, Body: overflow},
 			{Name: "sub-sched-unsub-recv", Mode: "sched", Bound: b, Reset: kit.ResetGlobals, Body: schedUnsub},
@@ -52,6 +54,8 @@ type mctx struct {
 	subs  []string
 	queue []string
 	recv  *kit.Call
+	qlen  int  // receive queue length when set short (0 = default, never overflows here)
+	lossy bool // the queue has overflowed: what is left is some in-order selection of queue
 }
 
 func (m *mctx) setOpt(n string, v interface{}) error {
@@ -103,15 +107,24 @@ func (m *mctx) matches(body string) bool {
 	return false
 }
 
+type pubEv struct {
+	pipe   int
+	prefix string
+}
+
 type world struct {
-	sock  mangos.Socket
-	pipes []*vt.Pipe
-	ctxs  []*mctx
-	seq   int
+	sock   mangos.Socket
+	pipes  []*vt.Pipe
+	ctxs   []*mctx
+	seq    int
+	topics []string // subscription alphabet of the history
+	pubs   []pubEv  // publication alphabet
+	late   bool     // the second context is opened by an event of the history
+	short  int      // ReadQLen of the second context (0 = default)
 }
 
 func setup(nctx int) *world {
-	w := &world{}
+	w := &world{topics: topics, pubs: []pubEv{{0, "a"}, {0, "ab"}, {0, "b"}, {1, ""}, {1, "\xff\x00"}, {1, "abc"}}}
 	s, err := sub.NewSocket()
 	if err != nil {
 		kit.Failf("setup", "NewSocket: %v", err)
@@ -140,6 +153,10 @@ func (w *world) publish(pipe int, prefix string) {
 	any := false
 	for _, m := range w.ctxs {
 		if m.matches(body) {
+			if m.qlen > 0 && len(m.queue) >= m.qlen {
+				m.lossy = true // something is dropped from this context's queue - and from no other
+				kit.Count("short-queue-overflowed")
+			}
 			m.queue = append(m.queue, body)
 			any = true
 			for _, s := range m.subs {
@@ -151,7 +168,7 @@ func (w *world) publish(pipe int, prefix string) {
 			kit.Count("filtered-at-arrival")
 		}
 	}
-	if any && !(w.ctxs[0].matches(body) && w.ctxs[1].matches(body)) {
+	if any && len(w.ctxs) > 1 && !(w.ctxs[0].matches(body) && w.ctxs[1].matches(body)) {
 		kit.Count("ctx-independent")
 	}
 	w.pipes[pipe].Deliver([]byte(body))
@@ -161,7 +178,7 @@ func (w *world) events() []kit.Event {
 	var evs []kit.Event
 	for _, m := range w.ctxs {
 		m := m
-		for _, t := range topics {
+		for _, t := range w.topics {
 			t := t
 			has := false
 			for _, s := range m.subs {
@@ -209,10 +226,24 @@ func (w *world) events() []kit.Event {
 			}})
 		}
 	}
-	for _, pb := range []struct {
-		pipe   int
-		prefix string
-	}{{0, "a"}, {0, "ab"}, {0, "b"}, {1, ""}, {1, "\xff\x00"}, {1, "abc"}} {
+	if w.late && len(w.ctxs) < 2 {
+		evs = append(evs, kit.Event{Name: "open-context", Run: func() {
+			c, err := w.sock.OpenContext()
+			if err != nil {
+				kit.Failf("open-context", "OpenContext: %s", kit.ErrName(err))
+			}
+			m := &mctx{name: "ctx1", c: c, s: w.sock}
+			if w.short > 0 {
+				if err := c.SetOption(mangos.OptionReadQLen, w.short); err != nil {
+					kit.Failf("qlen-error", "ctx.SetOption(ReadQLen,%d): %s", w.short, kit.ErrName(err))
+				}
+				m.qlen = w.short
+			}
+			w.ctxs = append(w.ctxs, m)
+			kit.Count("context-opened-mid-history")
+		}})
+	}
+	for _, pb := range w.pubs {
 		pb := pb
 		evs = append(evs, kit.Event{Name: fmt.Sprintf("pub:p%d:%q", pb.pipe, pb.prefix), Run: func() { w.publish(pb.pipe, pb.prefix) }})
 	}
@@ -238,6 +269,23 @@ func (w *world) settle() {
 		}
 		if !c.Done() {
 			kit.Failf("recv-blocked", "%s: Recv blocks although %d matching message(s) are queued (first %q, subscriptions %q)", m.name, len(m.queue), m.queue[0], m.subs)
+		}
+		if m.lossy && c.Err == nil {
+			// after an overflow any in-order selection may be left
+			idx := -1
+			for i, q := range m.queue {
+				if q == c.Val.(string) {
+					idx = i
+					break
+				}
+			}
+			if idx < 0 {
+				kit.Failf("recv-wrong", "%s: Recv returned %q, which is not among the matching messages still possible %q", m.name, c.Val, m.queue)
+			}
+			m.queue = m.queue[idx+1:]
+			m.recv = nil
+			kit.Count("delivered")
+			continue
 		}
 		if c.Err != nil || c.Val.(string) != m.queue[0] {
 			kit.Failf("recv-wrong", "%s: Recv returned %s / %q, want %q (subscriptions %q, queue %q)", m.name, kit.ErrName(c.Err), c.Val, m.queue[0], m.subs, m.queue)
@@ -270,6 +318,43 @@ func hist(depth int) {
 			kit.Quiesce()
 			if !c.Done() || c.Err != nil || c.Val.(string) != m.queue[0] {
 				kit.Failf("drain-wrong", "%s: draining returned done=%v %s / %q, want %q", m.name, c.Done(), kit.ErrName(c.Err), c.Val, m.queue[0])
+			}
+			m.queue = m.queue[1:]
+		}
+		c := kit.Start("drain-end", func() (interface{}, error) { b, err := m.recvCall(); return string(b), err })
+		kit.Quiesce()
+		if c.Done() {
+			kit.Failf("drain-extra", "%s: an extra message %q / %s was delivered (duplicate or non-matching)", m.name, c.Val, kit.ErrName(c.Err))
+		}
+	}
+	kit.Must("Socket.Close", func() { _ = w.sock.Close() })
+}
+
+// histLate: the socket subscribes, publications arrive, and only then a second context is opened
+// (free choice: with a receive queue of one message).  A new context has no subscription - it does
+// not share the socket's - and whatever it subscribes, unsubscribes or loses because its short
+// queue overflows is its own affair: the socket still gets every message that matches the socket's
+// subscriptions, in order, and vice versa.
+func histLate(depth int) {
+	w := setup(1)
+	w.late = true
+	w.short = kit.ChooseFree(2) // 0 = default length, 1 = one message
+	w.topics = []string{"", "a"}
+	w.pubs = []pubEv{{0, "a"}, {1, "b"}}
+	if err := w.ctxs[0].setOpt(mangos.OptionSubscribe, "a"); err != nil {
+		kit.Failf("subscribe-error", "Subscribe: %s", kit.ErrName(err))
+	}
+	w.ctxs[0].subs = append(w.ctxs[0].subs, "a")
+	kit.Hist(depth, w.events, w.settle)
+	for _, m := range w.ctxs {
+		if m.recv != nil || m.lossy {
+			continue
+		}
+		for len(m.queue) > 0 {
+			c := kit.Start("drain", func() (interface{}, error) { b, err := m.recvCall(); return string(b), err })
+			kit.Quiesce()
+			if !c.Done() || c.Err != nil || c.Val.(string) != m.queue[0] {
+				kit.Failf("drain-wrong", "%s: draining returned done=%v %s / %q, want %q (another context's queue overflowed or changed its subscriptions meanwhile; that must not matter)", m.name, c.Done(), kit.ErrName(c.Err), c.Val, m.queue[0])
 			}
 			m.queue = m.queue[1:]
 		}
